@@ -71,7 +71,7 @@ def log_rule(chk, rule='C12.R6'):
     SU = {s.name: s for s in f.members('Suit')}
     V = {v.name: v for v in f.members('Vul')}
     B = {b.name: b for b in f.members('Bid')}
-    scoring = f.member('Scoring', 'IMP')
+    scorings = f.members('Scoring')       # every board of a sequence under another scoring system (name and value of a member differ for some)
 
     def mk(cls, **kw):
         return f._construct(repo.cls(cls), [], kw)
@@ -103,7 +103,8 @@ def log_rule(chk, rule='C12.R6'):
         # (ids and names are text over an alphabet that contains the space: kept verbatim, also at either end)
         dict(board_id=' 3 ', names=('w ', ' n', 'e', 's'), dealer='S', deal=hands(4), bids=['H4', 'X', 'Pass', 'Pass', 'Pass'], contract=c_dbl,
              play=[], tricks=0, scores={'NS': 2600, 'EW': -2600}, dda=None, what='played, no completed trick recorded, declarer credited with 0 tricks'),
-        dict(board_id='4', names=('w', 'n', 'e', 's'), dealer='W', deal=hands(1), bids=['C7', 'X', 'XX', 'Pass', 'Pass', 'Pass'], contract=c_rdbl,
+        # (a board id may repeat: two tables / a second round - nothing may be keyed by it)
+        dict(board_id='1', names=('w', 'n', 'e', 's'), dealer='W', deal=hands(1), bids=['C7', 'X', 'XX', 'Pass', 'Pass', 'Pass'], contract=c_rdbl,
              play=[t2], tricks=13, scores={'NS': -2660, 'EW': 2660}, dda=dda, what='redoubled grand slam'),
     ]
     orders = [[0, 1, 2, 3], [1, 0], [2]]
@@ -120,7 +121,7 @@ def log_rule(chk, rule='C12.R6'):
             for b in seq:
                 ph = history(b['contract'], b['play']) if b['play'] is not None else None
                 f.call_method(wr, 'write', board_id=b['board_id'], west_player=b['names'][0], north_player=b['names'][1], east_player=b['names'][2],
-                              south_player=b['names'][3], dealer=P[b['dealer']], deal=b['deal'], scoring=scoring, bid_history=[B[x] for x in b['bids']],
+                              south_player=b['names'][3], dealer=P[b['dealer']], deal=b['deal'], scoring=scorings[(seq.index(b) * 3 + oi) % len(scorings)], bid_history=[B[x] for x in b['bids']],
                               contract=b['contract'], play_history=ph, taken_trick_num=b['tricks'],
                               scores={PAIR[k]: v for k, v in b['scores'].items()}, dda=b['dda'])
             f.call_method(wr, '__exit__', None, None, None)
@@ -161,13 +162,15 @@ def log_rule(chk, rule='C12.R6'):
                 'players': {P['W']: b['names'][0], P['N']: b['names'][1], P['E']: b['names'][2], P['S']: b['names'][3]},
                 'bid_history': [B[x] for x in b['bids']],
                 'play_history': None if b['play'] is None else [f.make('TrickHistory', leader=P[l], cards=tuple(card(r, s) for r, s in cs)) for l, cs in b['play']],
-                'dda': b['dda'], 'score_type': 'IMP', 'scores': {PAIR[x]: v for x, v in b['scores'].items()}}
+                'dda': b['dda'], 'score_type': scorings[(k * 3 + oi) % len(scorings)].value, 'scores': {PAIR[x]: v for x, v in b['scores'].items()}}
             pos = 'first' if k == 0 else 'after `' + seq[k - 1]['what'] + '`'
             for fld, wv in want.items():
                 gv = lg.fields.get(fld) if isinstance(lg, DV) else None
                 chk.require(_same(gv, wv), rule, w, q, f'field {fld} of a board ({b["what"]}) written {("first" if k == 0 else "after another board")}',
                             f'[sequence {oi + 1}] board {k + 1} ({b["what"]}): {fld} is read back equal to what was written',
                             f'board `{b["what"]}` written {pos}: `{fld}` is read back as {_show(gv, f)}, written was {_show(wv, f)}')
+            if k >= len(sets):
+                continue        # (fewer settings than boards: reported above)
             st = sets[k]
             for fld, wv in (('board_id', b['board_id']), ('hands', b['deal']), ('dealer', P[b['dealer']]), ('vul', con.fields['vul']), ('dda', b['dda'])):
                 gv = st.fields.get(fld) if isinstance(st, DV) else None
@@ -190,8 +193,8 @@ def settings_rule(chk, rule='C17.R7'):
         h = deals[i % len(deals)][1]
         return f._construct(repo.cls('Hands'), [], {'north_hand': set(h['N']), 'east_hand': set(h['E']), 'south_hand': set(h['S']), 'west_hand': set(h['W'])})
     dda = {P[p]: {SU[s]: (i + 2 * j) % 14 for j, s in enumerate(('C', 'D', 'H', 'S', 'NT'))} for i, p in enumerate(SEATS)}
-    boards = [dict(board_id='A 1', dealer='N', vul='NONE', deal=hands(0), dda=dda), dict(board_id='2', dealer='E', vul='NS', deal=hands(3), dda=None),
-              dict(board_id=' 2', dealer='S', vul='EW', deal=hands(5), dda=None), dict(board_id='x/4 ', dealer='W', vul='BOTH', deal=hands(len(deals) - 1), dda=dda)]
+    boards = [dict(board_id=' A 1', dealer='N', vul='NONE', deal=hands(0), dda=dda), dict(board_id='2', dealer='E', vul='NS', deal=hands(3), dda=None),
+              dict(board_id='2', dealer='S', vul='EW', deal=hands(5), dda=None), dict(board_id='x/4 ', dealer='W', vul='BOTH', deal=hands(len(deals) - 1), dda=dda)]
     n = 0
     for oi, order in enumerate([[0, 1, 2, 3], [1, 0, 2], [], [3]]):
         seq = [boards[i] for i in order]
